@@ -29,6 +29,7 @@ type Outcome struct {
 	Obs    string // oracle-relevant observation (counted as a distinct outcome)
 	Key    string // violation key ("" = property held on this execution)
 	Detail string
+	Aux    string // secondary observation for differential oracles (not counted as an outcome)
 }
 
 // Exec is one finished execution.
